@@ -42,6 +42,9 @@ type Desc struct {
 	// OnClose: the driver carries on-close hooks (generic and network level) that write "exit" and a
 	// return to the channel, as the shipped platform definitions do.
 	OnClose bool `json:"on_close,omitempty"`
+	// OnCloseReads: the generic on-close hook sends two commands and waits for their output; the
+	// device has gone mute, so each runs into the (short) operation timeout.
+	OnCloseReads bool `json:"on_close_reads,omitempty"`
 	// LogSinkFails: the session has a channel log whose sink starts failing (0 bytes taken, error)
 	// once the session is up.
 	LogSinkFails bool `json:"log_sink_fails,omitempty"`
@@ -263,6 +266,16 @@ func runClose(d Desc) mon.Result {
 			}))
 		}
 	}
+	if d.OnCloseReads && d.Driver != "netconf" {
+		extra = append(extra, options.WithOnClose(func(g *generic.Driver) error {
+			onCloseRan.Add(1)
+			if _, err := g.Channel.SendInput("show clock"); err != nil {
+				g.Channel.SendInput("exit")
+				return err
+			}
+			return nil
+		}))
+	}
 	sink := &failingSink{}
 	if d.LogSinkFails {
 		extra = append(extra, options.WithChannelLog(sink))
@@ -427,6 +440,10 @@ func runClose(d Desc) mon.Result {
 			time.Sleep(100 * time.Microsecond)
 		}
 	}
+	if d.OnCloseReads && d.Driver != "netconf" {
+		s.Conn.SetFault(devsim.FaultStall, gen)
+		s.G0().TimeoutOps = 300 * time.Millisecond
+	}
 	// ---- Close
 	closesBefore := s.Conn.CloseCalls()
 	grace := time.Duration(d.ReadDelay) * time.Microsecond
@@ -535,6 +552,9 @@ func runClose(d Desc) mon.Result {
 	if d.LogSinkFails {
 		obs["closes_with_failing_channel_log_sink"]++
 	}
+	if d.OnCloseReads {
+		obs["closes_with_on_close_hook_waiting_for_a_mute_device"]++
+	}
 	tags := []string{"driver=" + d.Driver, "state=" + d.State, "close=" + d.CloseB, fmt.Sprintf("readdelay=%d", d.ReadDelay), "order:" + sig}
 	if d.A != "" {
 		if cst.infeasible {
@@ -609,7 +629,7 @@ func gen(tier string, seed int64) []mon.Case {
 	n := 0
 	add := func(d Desc) {
 		d.Seed = seed*100003 + int64(n)
-		cs = append(cs, mon.MkCase(fmt.Sprintf("c07/%05d-%s-%s-%s-rd%d%s%s", n, d.Driver, d.State, d.CloseB, d.ReadDelay, map[bool]string{true: "-alive"}[d.AliveTracks], map[bool]string{true: fmt.Sprintf("-refused%d", d.OpenFails)}[d.OpenFails > 0]+map[bool]string{true: "-hookfails"}[d.OnCloseFails]+map[bool]string{true: "-logsinkfails"}[d.LogSinkFails]), d))
+		cs = append(cs, mon.MkCase(fmt.Sprintf("c07/%05d-%s-%s-%s-rd%d%s%s", n, d.Driver, d.State, d.CloseB, d.ReadDelay, map[bool]string{true: "-alive"}[d.AliveTracks], map[bool]string{true: fmt.Sprintf("-refused%d", d.OpenFails)}[d.OpenFails > 0]+map[bool]string{true: "-hookfails"}[d.OnCloseFails]+map[bool]string{true: "-logsinkfails"}[d.LogSinkFails]+map[bool]string{true: "-hookreads"}[d.OnCloseReads]), d))
 		n++
 	}
 	drivers := []string{"generic", "network", "netconf"}
@@ -630,6 +650,10 @@ func gen(tier string, seed int64) []mon.Case {
 							// a hook that fails must not keep Close from closing
 							add(Desc{Kind: "close", Driver: dr, State: st, CloseB: cb, ReadDelay: rd, OnClose: true, OnCloseFails: true})
 						}
+					}
+					if dr != "netconf" && rd == 250 && (st == "idle-blocked" || st == "second-close") {
+						// an on-close hook that waits for a device that has gone mute
+						add(Desc{Kind: "close", Driver: dr, State: st, CloseB: cb, ReadDelay: rd, OnCloseReads: true})
 					}
 					if rd == 250 && cb != "blocked" && (st == "data-arriving" || st == "idle-blocked" || st == "op-in-flight" || st == "error-arriving") {
 						// a channel log whose sink has gone away while data keeps arriving
